@@ -105,6 +105,19 @@ class _write_content:
                                                     [J.SEPARATOR, json_text(d)]),
                     not self._first_line, iff(self._open, old.self._open))
 
+    # C12/C17 ("any sequence of writes forms one valid document"): a record that cannot be
+    # serialised (scenario [value-not-serialisable]: json.dumps raises TypeError) is refused as a
+    # whole -- nothing of it, and no separator, reaches the document, and the writer goes on as if
+    # the call had not been made
+    def excensures_failed_write_leaves_the_document_unchanged(self, old):
+        return same(self, old.self)
+
+
+from pyvc.dsl import REGISTRY as _REGW
+_REGW.fns['bridge_env.data_handler.json_handler.writer.JsonWriter._write_content'].variants = {
+    'value-not-serialisable': dict(params=dict(d=Const({'board_id': {1, 2}})),
+                                   raises={TypeError: ('onlyif', None)}, never_returns=True)}
+
 
 # ---- records -----------------------------------------------------------------------------------
 
@@ -259,7 +272,7 @@ def _sample_setting(rng, log=False):
     return out
 
 
-@contract('bridge_env.data_handler.json_handler.parser.convert_board_setting', props=['C12', 'C17'])
+@contract('bridge_env.data_handler.json_handler.parser.convert_board_setting', props=['C12', 'C14', 'C17'])
 class _convert_setting:
     at_calls = 'abstract'
     abstract_raises = (Exception,)
@@ -278,7 +291,7 @@ class _convert_setting:
                     same(result.dda, ghost_dda))
 
 
-@contract('bridge_env.data_handler.json_handler.parser.convert_board_log', props=['C12'])
+@contract('bridge_env.data_handler.json_handler.parser.convert_board_log', props=['C12', 'C14'])
 class _convert_log:
     at_calls = 'abstract'
     abstract_raises = (Exception,)
